@@ -426,3 +426,31 @@ def rule_strip_charset(ck, repo, R, modules=None):
                           f'{m.name}: `{src(c)[:90]}` strips the character set {sorted(set(s))}, not the prefix/suffix {s!r}: names beginning (ending) with one of these characters '
                           f'lose more than intended (DynamicDy -> "")', file=m.relpath, line=c.lineno, construct=src(c)[:100])
     ck.count(f'{R}: strip calls with a literal', n)
+
+
+# C11 -----------------------------------------------------------------------------------------------------------------------------------
+def rule_index_lands_on_header(ck, repo, R):
+    ck.rule(R, 'RDFRead: reset_index records the byte positions of the `$RFMT` / `$MFMT` lines, so seek(k) puts the file ON the header line of record k, whereas sequential '
+               'reading arrives just AFTER it (the header was consumed as the terminator of the previous record). _read_block therefore leaves its loop at a header line '
+               'only when it has already collected lines of the record; a header met with an empty buffer is the record\'s own')
+    c = repo.cls('chython.files.RDFrw:RDFRead')
+    ck.require(c is not None, 'RDFRead not found')
+    ri, rb = c.method('reset_index'), c.method('_read_block')
+    ck.require(ri is not None and rb is not None, 'RDFRead.reset_index / _read_block not found')
+    pats = [n.value for n in ast.walk(ri.node) if isinstance(n, ast.Constant) and isinstance(n.value, str) and 'FMT' in n.value]
+    ck.require(pats, 'reset_index: grep pattern of the record headers not found')
+    loops = [n for n in ast.walk(rb.node) if isinstance(n, ast.For) and 'self._file' in src(n.iter)]
+    ck.require(len(loops) == 1, '_read_block: reading loop not recognised')
+    parents = enclosing_map(rb.node)
+    n = 0
+    for br in [x for x in ast.walk(loops[0]) if isinstance(x, ast.Break)]:
+        conds = reach_conditions(br, rb.node, parents)
+        cs = [src(x) for x in conds]
+        if not any('FMT' in x and 'startswith' in x for x in cs):
+            continue
+        n += 1
+        ok = any(x in ('buffer', 'len(buffer)', 'len(buffer) > 0', 'self._buffer') for x in cs)
+        ck.decide(ok, R, 'break-needs-lines', cs,
+                  f'RDFRead._read_block ends the record at a header line under {cs} even when nothing was collected: after seek(k > 0) the first line read IS the header of '
+                  f'record k, the block is empty and EOFError is raised (rd[1] fails, rd[::-1] returns [])', file=rb.file, line=br.lineno, func=rb.qualname)
+    ck.require(n >= 1, '_read_block: terminator arm not recognised')
